@@ -306,8 +306,46 @@ func (s *pxState) emit(e Ev) {
 	// opaque calls that are handed a private buffer leave unknown rendered text in it
 	if e.Kind == "call" || e.Kind == "invoke" {
 		for _, a := range e.Args {
-			if a != nil && a.Op == "alloc" && isBufferPtr(a.Typ) && e.Res != nil {
-				s.bufAppend(a, &T{Op: "call", Aux: "rendered", A: []*T{e.Res}, Typ: types.Typ[types.String]})
+			if a == nil || e.Res == nil {
+				continue
+			}
+			marker := &T{Op: "call", Aux: "rendered", A: []*T{e.Res}, Typ: types.Typ[types.String]}
+			if isPrivBuf(a) {
+				s.bufAppend(a, marker)
+				continue
+			}
+			// a path-local context object (`sw := &sourceWriter{…}`) handed to an opaque routine of the
+			// module: the buffers it holds by value receive unknown text, and an error it carries
+			// ("errors are values": the first error sticks) may have been set
+			if a.Op != "alloc" || e.Fn == nil || e.Fn.Pkg == nil || !strings.HasPrefix(e.Fn.Pkg.Pkg.Path(), modulePath) {
+				continue
+			}
+			pt, ok := a.Typ.Underlying().(*types.Pointer)
+			if !ok {
+				continue
+			}
+			stt, ok := pt.Elem().Underlying().(*types.Struct)
+			if !ok {
+				continue
+			}
+			for i := 0; i < stt.NumFields(); i++ {
+				fld := stt.Field(i)
+				key := "o" + strconv.Itoa(a.Obj) + "." + fld.Name()
+				switch ts := types.TypeString(fld.Type(), nil); {
+				case ts == "bytes.Buffer" || ts == "strings.Builder":
+					if old, ok := s.mem[key+"$text"]; ok {
+						s.mem[key+"$text"] = &T{Op: "binop", Aux: "+", A: []*T{old, marker}, Typ: types.Typ[types.String]}
+					} else {
+						s.mem[key+"$text"] = marker
+					}
+				case isErrorType(fld.Type()):
+					if old, ok := s.mem[key]; ok && !old.Nil {
+						if pol, known := s.facts[eqAtom(old.String(), "nil")]; known && !pol {
+							continue // already failed on this path: the error sticks
+						}
+					}
+					s.mem[key] = &T{Op: "call", Aux: "errAfter", A: []*T{e.Res}, Typ: fld.Type(), Inst: e.Res.Inst}
+				}
 			}
 		}
 	}
@@ -321,8 +359,37 @@ func isBufferPtr(t types.Type) bool {
 	return s == "*bytes.Buffer" || s == "*strings.Builder"
 }
 
+// privBufKey: the memory key of the text of a private in-memory buffer — a *bytes.Buffer /
+// *strings.Builder that is a fresh allocation of this path, or a buffer-typed field (by value) of
+// one (`sw := &sourceWriter{}; sw.buf.WriteString(..)`).
+func privBufKey(t *T) (string, bool) {
+	if t == nil || !isBufferPtr(t.Typ) {
+		return "", false
+	}
+	switch t.Op {
+	case "alloc":
+		return "o" + strconv.Itoa(t.Obj) + "$text", true
+	case "faddr":
+		path := ""
+		cur := t
+		for cur.Op == "faddr" && len(cur.A) == 1 {
+			path = "." + cur.Aux + path
+			cur = cur.A[0]
+		}
+		if cur.Op == "alloc" {
+			return "o" + strconv.Itoa(cur.Obj) + path + "$text", true
+		}
+	}
+	return "", false
+}
+
+func isPrivBuf(t *T) bool {
+	_, ok := privBufKey(t)
+	return ok
+}
+
 func (s *pxState) bufAppend(buf *T, piece *T) {
-	key := "o" + strconv.Itoa(buf.Obj) + "$text"
+	key, _ := privBufKey(buf)
 	if old, ok := s.mem[key]; ok {
 		s.mem[key] = &T{Op: "binop", Aux: "+", A: []*T{old, piece}, Typ: types.Typ[types.String]}
 	} else {
@@ -331,8 +398,10 @@ func (s *pxState) bufAppend(buf *T, piece *T) {
 }
 
 func (s *pxState) bufText(buf *T) *T {
-	if v, ok := s.mem["o"+strconv.Itoa(buf.Obj)+"$text"]; ok {
-		return v
+	if k, ok := privBufKey(buf); ok {
+		if v, ok := s.mem[k]; ok {
+			return v
+		}
 	}
 	return cStr("")
 }
@@ -622,6 +691,11 @@ func (r *pxRun) branch(st *pxState, fr *pxFrame, b *ssa.BasicBlock, cond *T, don
 						isHeader = true
 					}
 				}
+				// … and the condition is the loop's exit test: one of the two edges leaves the loop
+				// (`for i := 0; ; i++ { if i > 0 {…} … }` tests the counter without bounding the loop)
+				if isHeader && blockReaches(b.Succs[0], b) && blockReaches(b.Succs[1], b) {
+					isHeader = false
+				}
 			}
 		}
 		if hk := fmt.Sprintf("!%d.%d", fr.id, b.Index); isHeader && st.visits[hk] < 64 {
@@ -827,7 +901,7 @@ func isErrNilAtom(cond *T, l Lit) bool {
 		if t.Op == "binop" && (t.Aux == "==" || t.Aux == "!=") && len(t.A) == 2 {
 			for k := 0; k < 2; k++ {
 				x, y := t.A[k], t.A[1-k]
-				if y.Nil && x.Typ != nil && isErrorType(x.Typ) && (x.Op == "call" || x.Op == "extract") {
+				if y.Nil && !x.Nil && x.Typ != nil && isErrorType(x.Typ) {
 					return true
 				}
 			}
@@ -1083,6 +1157,35 @@ func (r *pxRun) eval(st *pxState, fr *pxFrame, v ssa.Value) *T {
 		base := r.val(st, fr, x.X)
 		// slice of a local array: capture its elements
 		if base.Op == "alloc" {
+			if arr, ok := x.X.Type().Underlying().(*types.Pointer).Elem().Underlying().(*types.Array); ok {
+				from, to, known := int64(0), arr.Len(), true
+				if x.Low != nil {
+					if n, ok := r.val(st, fr, x.Low).intVal(); ok {
+						from = n
+					} else {
+						known = false
+					}
+				}
+				if x.High != nil {
+					if n, ok := r.val(st, fr, x.High).intVal(); ok {
+						to = n
+					} else {
+						known = false
+					}
+				}
+				if known && 0 <= from && from <= to && to <= arr.Len() {
+					t := &T{Op: "elems", HasEl: true, Typ: x.Type()}
+					for i := from; i < to; i++ {
+						key := fmt.Sprintf("o%d[%d]", base.Obj, i)
+						if e, ok := st.mem[key]; ok {
+							t.Elems = append(t.Elems, e)
+						} else {
+							t.Elems = append(t.Elems, zeroTerm(arr.Elem()))
+						}
+					}
+					return t
+				}
+			}
 			if arr, ok := x.X.Type().Underlying().(*types.Pointer).Elem().Underlying().(*types.Array); ok && x.Low == nil && x.High == nil {
 				t := &T{Op: "elems", HasEl: true, Typ: x.Type()}
 				for i := int64(0); i < arr.Len(); i++ {
@@ -1111,6 +1214,17 @@ func (r *pxRun) eval(st *pxState, fr *pxFrame, v ssa.Value) *T {
 		}
 		if h, ok := hi.intVal(); ok && h == 0 && x.High != nil {
 			return &T{Op: "elems", HasEl: true, Typ: x.Type()} // x[:0]: an empty slice
+		}
+		if base.Op == "elems" && base.HasEl {
+			// a slice of a slice whose elements are known, with known bounds
+			l, ok1 := lo.intVal()
+			h, ok2 := hi.intVal()
+			if x.High == nil {
+				h, ok2 = int64(len(base.Elems)), true
+			}
+			if ok1 && ok2 && 0 <= l && l <= h && int(h) <= len(base.Elems) {
+				return &T{Op: "elems", HasEl: true, Elems: append([]*T{}, base.Elems[l:h]...), Typ: x.Type()}
+			}
 		}
 		if s, ok := base.strVal(); ok {
 			l, ok1 := lo.intVal()
@@ -1218,7 +1332,72 @@ func convTerm(a *T, to types.Type) *T {
 	if a.isConst() {
 		return &T{Op: "const", C: a.C, Typ: to}
 	}
+	// a numeric conversion that does not keep every value (narrowing, a change of signedness that
+	// can wrap, float → int, a wide integer → float, float64 → float32) is a computation of its own
+	// … unless it undoes the conversion before it: intN → uintM → intK (or uintN → intM → uintK)
+	// with N ≤ K ≤ M reinterprets the same bits twice and yields the original value
+	if a.Op == "call" && strings.HasPrefix(a.Aux, "conv<") && len(a.A) == 1 && a.A[0].Typ != nil && a.Typ != nil {
+		if xb, ok1 := a.A[0].Typ.Underlying().(*types.Basic); ok1 {
+			if ub, ok2 := a.Typ.Underlying().(*types.Basic); ok2 {
+				if tb, ok3 := to.Underlying().(*types.Basic); ok3 && xb.Info()&types.IsInteger != 0 && ub.Info()&types.IsInteger != 0 && tb.Info()&types.IsInteger != 0 {
+					xu, uu, tu := xb.Info()&types.IsUnsigned != 0, ub.Info()&types.IsUnsigned != 0, tb.Info()&types.IsUnsigned != 0
+					n, m, k := intBits(xb), intBits(ub), intBits(tb)
+					if xu == tu && xu != uu && n <= k && k <= m {
+						return a.A[0]
+					}
+				}
+			}
+		}
+	}
+	if a.Typ != nil && lossyNumericConv(a.Typ, to) {
+		return &T{Op: "call", Aux: "conv<" + types.TypeString(to, nil) + ">", A: []*T{a}, Typ: to}
+	}
 	return a
+}
+
+func lossyNumericConv(from, to types.Type) bool {
+	fb, ok1 := from.Underlying().(*types.Basic)
+	tb, ok2 := to.Underlying().(*types.Basic)
+	if !ok1 || !ok2 || fb.Info()&types.IsNumeric == 0 || tb.Info()&types.IsNumeric == 0 {
+		return false
+	}
+	size := func(b *types.Basic) int {
+		switch b.Kind() {
+		case types.Int8, types.Uint8:
+			return 8
+		case types.Int16, types.Uint16:
+			return 16
+		case types.Int32, types.Uint32, types.Float32:
+			return 32
+		case types.Complex64:
+			return 32 // per part
+		}
+		return 64
+	}
+	fi, ti := fb.Info(), tb.Info()
+	switch {
+	case fi&types.IsInteger != 0 && ti&types.IsInteger != 0:
+		fu, tu := fi&types.IsUnsigned != 0, ti&types.IsUnsigned != 0
+		switch {
+		case fu == tu:
+			return size(tb) < size(fb)
+		case fu && !tu:
+			return size(tb) <= size(fb)
+		default: // signed → unsigned: negative values wrap
+			return true
+		}
+	case fi&types.IsInteger != 0 && ti&types.IsFloat != 0:
+		mant := 53
+		if size(tb) == 32 {
+			mant = 24
+		}
+		return size(fb) > mant
+	case fi&types.IsFloat != 0 && ti&types.IsInteger != 0:
+		return true
+	case fi&types.IsFloat != 0 && ti&types.IsFloat != 0, fi&types.IsComplex != 0 && ti&types.IsComplex != 0:
+		return size(tb) < size(fb)
+	}
+	return false
 }
 
 func fieldOfTerm(x *T, f string, typ types.Type) *T {
@@ -1626,7 +1805,7 @@ func (r *pxRun) call(st *pxState, fr *pxFrame, x *ssa.Call, k func(*pxState, *px
 	if cc.IsInvoke() {
 		recv := r.val(st, fr, cc.Value)
 		if s := sinkOf(x); s != nil {
-			if recv.Op == "alloc" && isBufferPtr(recv.Typ) {
+			if isPrivBuf(recv) {
 				st.bufAppend(recv, args[0])
 				if r.cfg.LocalWrites {
 					st.emit(Ev{Kind: "write", Name: cc.Method.Name(), In: x, Within: fr.fn, Writer: recv, Segs: termTemplate(args[0]), Data: args[0], Depth: fr.depth})
@@ -1678,9 +1857,22 @@ func (r *pxRun) call(st *pxState, fr *pxFrame, x *ssa.Call, k func(*pxState, *px
 	inModule := callee.Blocks != nil && r.c.inModule(callee)
 	if !inModule {
 		// external
-		if wi, di, ok := extSink(x); ok {
+		wi, di, ok := extSink(x)
+		// draining a private buffer into a writer: (*bytes.Buffer).WriteTo(w), io.Copy(w, buf)
+		var drained *T
+		switch {
+		case name == "(*bytes.Buffer).WriteTo" && len(args) == 2 && isPrivBuf(args[0]):
+			wi, di, ok, drained = 1, -4, true, args[0]
+		case name == "io.Copy" && len(args) == 2 && isPrivBuf(args[1]):
+			wi, di, ok, drained = 0, -4, true, args[1]
+		}
+		if ok {
 			var data *T
 			switch {
+			case di == -4:
+				data = st.bufText(drained)
+				dk, _ := privBufKey(drained)
+				delete(st.mem, dk)
 			case di == -2: // fmt.Fprintf
 				data = foldExt("fmt.Sprintf", args[1:], types.Typ[types.String], x)
 			case di == -3: // fmt.Fprint / Fprintln
@@ -1688,7 +1880,7 @@ func (r *pxRun) call(st *pxState, fr *pxFrame, x *ssa.Call, k func(*pxState, *px
 			default:
 				data = args[di]
 			}
-			if args[wi].Op == "alloc" && isBufferPtr(args[wi].Typ) {
+			if isPrivBuf(args[wi]) {
 				// a private in-memory buffer: its content is tracked, the write cannot fail
 				st.bufAppend(args[wi], data)
 				if r.cfg.LocalWrites {
@@ -1703,7 +1895,7 @@ func (r *pxRun) call(st *pxState, fr *pxFrame, x *ssa.Call, k func(*pxState, *px
 			st.emit(Ev{Kind: "write", Name: name, In: x, Within: fr.fn, Writer: args[wi], Segs: termTemplate(data), Data: data, Res: res, Depth: fr.depth})
 			return bind(res)
 		}
-		if len(args) > 0 && args[0].Op == "alloc" && isBufferPtr(args[0].Typ) {
+		if len(args) > 0 && isPrivBuf(args[0]) {
 			switch name {
 			case "(*bytes.Buffer).Bytes", "(*bytes.Buffer).String", "(*strings.Builder).String":
 				return bind(st.bufText(args[0]))
@@ -1714,7 +1906,8 @@ func (r *pxRun) call(st *pxState, fr *pxFrame, x *ssa.Call, k func(*pxState, *px
 				}
 				return bind(&T{Op: "len", A: []*T{txt}, Typ: resTyp})
 			case "(*bytes.Buffer).Reset", "(*strings.Builder).Reset":
-				delete(st.mem, "o"+strconv.Itoa(args[0].Obj)+"$text")
+				rk, _ := privBufKey(args[0])
+				delete(st.mem, rk)
 				return bind(&T{Op: "tuple", Typ: resTyp})
 			case "(*bytes.Buffer).Grow", "(*strings.Builder).Grow":
 				return bind(&T{Op: "tuple", Typ: resTyp})
@@ -2423,4 +2616,38 @@ func lenEquation(cond *T, taken bool) (string, int64, bool) {
 		}
 	}
 	return "", 0, false
+}
+
+// blockReaches reports whether to is reachable from from along CFG edges.
+func blockReaches(from, to *ssa.BasicBlock) bool {
+	seen := map[*ssa.BasicBlock]bool{}
+	var walk func(b *ssa.BasicBlock) bool
+	walk = func(b *ssa.BasicBlock) bool {
+		if b == to {
+			return true
+		}
+		if seen[b] {
+			return false
+		}
+		seen[b] = true
+		for _, s := range b.Succs {
+			if walk(s) {
+				return true
+			}
+		}
+		return false
+	}
+	return walk(from)
+}
+
+func intBits(b *types.Basic) int {
+	switch b.Kind() {
+	case types.Int8, types.Uint8:
+		return 8
+	case types.Int16, types.Uint16:
+		return 16
+	case types.Int32, types.Uint32:
+		return 32
+	}
+	return 64
 }
